@@ -1190,7 +1190,10 @@ impl<'a> FieldEntry<'a> {
         // since field name change by rust-analyzer is not possible when using `field.ident` span
         //
         // Same problem with `field.span()`, since it is the same as `field.ident` span when `field.vis` is empty.
-        self.field.ty.span()
+        //
+        // Only the location is taken from the field: generated identifiers (`self`, `other`, `state`, ...) must resolve
+        // like the rest of the generated code, also when the item comes out of a `macro_rules!` expansion.
+        Span::call_site().located_at(self.field.ty.span())
     }
 
     fn member(&self) -> TokenStream {
